@@ -13,13 +13,15 @@ NOT_YET = {
     "C16": ["PFOR, group, Elias, BP128, adaptive, float metadata: monitors + correspondence only so far"],
     "C05": [],
     "C11": [],
+    "C15": ["completeness of the list of residue sites, and what the compiler does with an uninitialised read, are facts about the "
+            "binary: carried by the perturbed correspondence runs and memcheck, not by a theorem (property is PARTIAL)"],
     "C18": ["crash- and leak-freedom (facts about the binary: observed by the sweep, not theorems); the stateless codecs are "
             "carried only as request-count tables tied by the correspondence (abortAll_spec), their value-level result under "
             "refusal is 'failure or the undisturbed result' by observation; members-list = bit set (C08 set algebra) is not proved, "
             "so or_spec / from_members_spec speak about the list the C iterates"],
     "C14": ["termination is by construction (the models are total functions whose loops are bounded by explicit fuel = input size); "
             "that the fuel of runCountAux suffices is tied by the correspondence, not proved"],
-    "C06": ["losslessness of the PFOR, DICT and BITMAP arms (their codecs have no round-trip theorem yet) and hence the unconditional adaptive_roundtrip; analysis facts (isSorted/uniqueCount describe the list) linking select_bitmap_domain to the input list"],
+    "C06": ["losslessness of the PFOR, DICT and BITMAP arms (their codecs have no round-trip theorem yet) and hence the unconditional adaptive_roundtrip"],
     "C07": ["array-level framing round trip (decode (encode ds) = map roundTripOne ds) is not a theorem: encode bytes are compared with the model and the decoded values are checked on the implementation"],
     "C10": ["bit cells (set/clear/toggle) as theorems: model + monitors + correspondence only; half-float cells not covered (F16C-only code)"],
     "C08": ["set algebra (or/and/xor/andnot), add-range fast path (single run on an empty set), clone and serialise/deserialise, ascending duplicate-free iteration (`members`) as theorems; the three containers are abstracted to one bit set in the model (their equivalence with the C is sampled by the histories)"],
